@@ -105,11 +105,12 @@ class DistanceEdgeAnalytic(DistanceEdge):
         return out
 
 
-def make_graph(rng, world=None, nv=None, ne=None, fix="first", custom=True, well_posed=False, noise=0.1, multi=True, ids="shuffled", cross=True):
+def make_graph(rng, world=None, nv=None, ne=None, fix="first", custom=True, well_posed=False, noise=0.1, multi=True, ids="shuffled", cross=True, meas_noise=None, walk=False):
     """world: '2d' (SE2 poses + R2 landmarks), '3d' (SE3 + R3), 'r2', 'r3', or 'mixed' (2d and 3d components in one graph).
     Returns (graph, desc)."""
     world = world or rng.choice(["2d", "3d", "r2", "r3", "mixed"])
     nv = nv or rng.randrange(2, 9)
+    mn = noise * 0.3 if meas_noise is None else meas_noise
     comps = []
     if world == "mixed":
         comps = [("2d", max(2, nv // 2)), ("3d", max(2, nv - nv // 2))]
@@ -130,10 +131,29 @@ def make_graph(rng, world=None, nv=None, ne=None, fix="first", custom=True, well
         n_pose = max(2, n - n_land)
         base = len(verts)
         truth = []
+        cur = None
         for k in range(n_pose):
-            truth.append((pose_t, rand_pose_vals(rng, pose_t)))
+            if walk and cur is not None:
+                # random-walk ground truth: unit-scale steps with moderate rotations
+                c = cur.COMPACT_DIMENSIONALITY
+                step = np.array([rng.gauss(0, 1.0) for _ in range(c)])
+                if pose_t == "PoseSE3":
+                    step[3:] *= 0.25
+                elif pose_t == "PoseSE2":
+                    step[2] *= 0.5
+                cur = cur + step
+                truth.append((pose_t, np.asarray(cur).tolist()))
+            else:
+                vals = rand_pose_vals(rng, pose_t)
+                cur = mk_pose(pose_t, vals)
+                truth.append((pose_t, vals))
         for k in range(n_land):
-            truth.append((point_t, rand_pose_vals(rng, point_t)))
+            if walk:
+                a = rng.randrange(n_pose)
+                base_pos = np.asarray(mk_pose(pose_t, truth[a][1]).position)
+                truth.append((point_t, (base_pos + np.array([rng.gauss(0, 2.0) for _ in range(len(base_pos))])).tolist()))
+            else:
+                truth.append((point_t, rand_pose_vals(rng, point_t)))
         order = list(range(len(truth)))
         rng.shuffle(order)
         idx_of = {}
@@ -163,8 +183,8 @@ def make_graph(rng, world=None, nv=None, ne=None, fix="first", custom=True, well
             pa, pb = mk_pose(pose_t, truth[a][1]), mk_pose(pose_t, truth[b][1])
             z = pb - pa
             c = z.COMPACT_DIMENSIONALITY
-            if noise:
-                z = z + np.array([rng.gauss(0, noise * 0.3) for _ in range(c)])
+            if mn:
+                z = z + np.array([rng.gauss(0, mn) for _ in range(c)])
             edges.append(dict(kind="odometry", vids=[verts[idx_of[a]]["id"], verts[idx_of[b]]["id"]], est_cls=pose_t, est=np.asarray(z).tolist(), info=spd(rng, c, cross).tolist()))
         for k in range(n_pose, n_pose + n_land):
             for _ in range(rng.randrange(1, 3)):
@@ -173,8 +193,8 @@ def make_graph(rng, world=None, nv=None, ne=None, fix="first", custom=True, well
                 pa, off, l = mk_pose(pose_t, truth[a][1]), mk_pose(pose_t, off_vals), mk_pose(point_t, truth[k][1])
                 z = (pa + off).inverse + l
                 c = z.COMPACT_DIMENSIONALITY
-                if noise:
-                    z = z + np.array([rng.gauss(0, noise * 0.3) for _ in range(c)])
+                if mn:
+                    z = z + np.array([rng.gauss(0, mn) for _ in range(c)])
                 edges.append(dict(kind="landmark", vids=[verts[idx_of[a]]["id"], verts[idx_of[k]]["id"]], est_cls=point_t, est=np.asarray(z).tolist(), off_cls=pose_t, off=off_vals, off_id=rng.randrange(0, 5), info=spd(rng, c, cross).tolist()))
         if w in ("r2", "r3") and rng.random() < 0.5 and n_pose >= 2:
             # point-to-point landmark edges with offsets
